@@ -105,9 +105,11 @@ class DateTime(SimpleModel):
     __type_name__ = 'dateTime'
     Value = datetime.datetime
 
-    _local_re = re.compile(DATETIME_PATTERN)
-    _utc_re = re.compile(DATETIME_PATTERN + 'Z')
-    _offset_re = re.compile(DATETIME_PATTERN + OFFSET_PATTERN)
+    # anchored at the end: these are applied with re.match(), which would
+    # otherwise accept any text that merely starts with a valid value
+    _local_re = re.compile(DATETIME_PATTERN + r'\Z')
+    _utc_re = re.compile(DATETIME_PATTERN + r'Z\Z')
+    _offset_re = re.compile(DATETIME_PATTERN + OFFSET_PATTERN + r'\Z')
 
     class Attributes(SimpleModel.Attributes):
         """Customizable attributes of the :class:`spyne.model.primitive.DateTime`
@@ -216,7 +218,7 @@ class Date(DateTime):
 
     __type_name__ = 'date'
 
-    _offset_re = re.compile(DATE_PATTERN + '(' + OFFSET_PATTERN + '|Z)')
+    _offset_re = re.compile(DATE_PATTERN + '(' + OFFSET_PATTERN + r'|Z)\Z')
     Value = datetime.date
 
     class Attributes(DateTime.Attributes):
